@@ -437,9 +437,11 @@ static int only_legit_sleepers (void) {
 	return any;
 }
 static int max_deadline (void) { int t, i, m = 0; for (t = 0; t < S.n; t++) for (i = 0; i < S.nops[t]; i++) if (S.prog[t][i].dl > m) m = S.prog[t][i].dl; return m; }
+static unsigned long long fin_rng;
 static void finish (int diverged) {
 	long guard = 0;
 	int i, progress;
+	fin_rng = 0x2545F4914F6CDD1DULL;
 	if (!diverged) {
 		/* same state as the specification's: a terminal state in which somebody is still blocked is a hang */
 		int timed = 0;
@@ -447,8 +449,15 @@ static void finish (int diverged) {
 		if (victim_done () || rt_any_enabled () || timed || only_legit_sleepers ()) return;
 	}
 	while (!victim_done () && guard++ < 200000 && !rt_first_violation ()) {
+		/* run everything to completion under a FAIR schedule.  Strict round-robin is fair but periodic: three threads spinning on one
+		   spinlock (a timed-out cv waiter re-checking under the cv spinlock, a waker, a second waiter) can fall into step so that the same
+		   thread loses every time, for ever; no property speaks about such schedules.  So: rounds in a pseudo-random order, each enabled
+		   thread once per round (still fair, deterministic given the state reached so far). */
+		int order[RT_MAXT], k;
 		progress = 0;
-		for (i = 0; i < S.n; i++) if (rt_enabled (i) && !victim_done ()) { rt_grant (i); note_step (i); progress = 1; }
+		for (i = 0; i < S.n; i++) order[i] = i;
+		for (i = S.n - 1; i > 0; i--) { fin_rng ^= fin_rng << 13; fin_rng ^= fin_rng >> 7; fin_rng ^= fin_rng << 17; k = (int) ((fin_rng >> 11) % (unsigned) (i + 1)); { int x = order[i]; order[i] = order[k]; order[k] = x; } }
+		for (k = 0; k < S.n; k++) { i = order[k]; if (rt_enabled (i) && !victim_done ()) { rt_grant (i); note_step (i); progress = 1; } }
 		if (!progress) {
 			if (rt_now () < RT_T0 + max_deadline () + 1) { rt_tick (); progress = 1; }
 			else break;
